@@ -82,7 +82,7 @@ func c08configs() []c08cfg {
 	})})
 	out = append(out, c08cfg{id: "invalid-output", files: inv(func(c *Cfg) {
 		c.Params = append(c.Params, Param{"c1", "%c2%"}, Param{"c2", "%c1%%gone1%"}, Param{"m", "%gone3%%gone2%"})
-		c.Services = append(c.Services, Service{Name: "y1", Constructor: P("New"), Args: []any{"@y2", "@lost2", "%gone4%"}, Scope: P("shared")},
+		c.Services = append(c.Services, Service{Name: "y1", Constructor: P("New"), Args: []any{"@y2", "@lost2", "%gone4%", "@y0", "@y2", "%c1%", "%c2%", "%c1%", "!tagged tg", "!tagged tg"}, Calls: []Call{{Method: "M", Args: []any{"@y2", "@y0"}}}, Scope: P("shared")},
 			Service{Name: "y2", Constructor: P("New"), Args: []any{"@y1", "@lost1"}, Scope: P("contextual")},
 			Service{Name: "y0", Constructor: P("New"), Args: []any{"@y0", "@y2"}, Scope: P("shared"), Tags: []Tag{{Name: "tg"}}})
 		c.Decorators = append(c.Decorators, Decorator{Tag: "tg", Decorator: "pk.Dec3", Args: []any{"@lost3", "%gone5%", "@s3"}})
